@@ -384,6 +384,33 @@ func AnalyzeConfig(p *load.Program, r *Roles, depth int) *UnitResult {
 			disjoint = false
 		}
 	}
+	// applying an option object runs the setter closure it carries, once, on the node given
+	if iface := p.Iface("CustomNodeOption"); iface != nil {
+		nApply := 0
+		for _, fn := range p.AllFunctions() {
+			if fn.Name() != "apply" || fn.Signature.Recv() == nil || len(fn.Params) != 2 {
+				continue
+			}
+			if !types.Implements(fn.Signature.Recv().Type(), iface) {
+				continue
+			}
+			nApply++
+			label := funcLabel(fn)
+			for _, pth := range exploreAdapter(p, r, res, fn, Mode{}, nil, nil, nil, "C19.ENGINE") {
+				node := eng.Param(1, fn.Params[1].Name())
+				n := 0
+				okArg := true
+				for _, uc := range pth.calls {
+					if strings.HasPrefix(uc.class, "field:") || strings.HasPrefix(uc.class, "dyn:") {
+						n++
+						okArg = okArg && len(uc.args) == 1 && uc.args[0] == node
+					}
+				}
+				col.CheckAt("C19.R3", label+":runs-setter", !pth.panic && n == 1 && okArg, pth.pos, fmt.Sprintf("applying a function option must run its setter exactly once on the node being configured (%d calls, on that node: %v)", n, okArg), nil)
+			}
+		}
+		col.Check("C19.R3", "CustomNodeOption.apply:implementations", nApply >= 1, p.Position(0), "no implementation of CustomNodeOption.apply found", nil)
+	}
 	col.Check("C19.R3", "option-classes:disjoint-fields", disjoint && len(classFields["NodeOption"]) > 0 && len(classFields["CustomNodeOption"]) > 0, p.Position(0), "base options and function options write overlapping fields: their relative order would matter", nil)
 
 	// constructors
@@ -704,7 +731,7 @@ func checkGetters(p *load.Program, r *Roles, col *Col, res *UnitResult, run func
 			col.Unproven("C19.R5", "BaseNode."+g, p.Position(0), "getter or its field not found", nil)
 			continue
 		}
-		e := run(fn, nil, Mode{})
+		e := run(fn, nil, Mode{}, &unlockMon{col: col, label: "BaseNode." + g})
 		field := eng.Load(eng.FieldAddr(eng.Param(0, fn.Params[0].Name()), idx))
 		for _, rt := range e.Returns {
 			if rt.Panic || len(rt.Vals) != 1 {
@@ -848,4 +875,45 @@ func wrapperSignature(p *load.Program, r *Roles, res *UnitResult, w *ssa.Functio
 		}
 	}
 	return strings.Join(out, " || ")
+}
+
+// unlockMon: a getter never releases a lock it does not hold (sync makes that a fatal
+// error, i.e. every run that reads the configuration would crash).
+type unlockMon struct {
+	col   *Col
+	label string
+}
+type heldState struct{ r, w int }
+
+func (s heldState) Key() string                                 { return fmt.Sprintf("%d,%d", s.r, s.w) }
+func (s heldState) Terms() []*eng.Term                          { return nil }
+func (s heldState) Rename(func(*eng.Term) *eng.Term) eng.MState { return s }
+func (m *unlockMon) Name() string                               { return "unlock" }
+func (m *unlockMon) Init() eng.MState                           { return heldState{} }
+func (m *unlockMon) OnEvent(c *eng.Ctx, ms eng.MState, ev *eng.Event) eng.MState {
+	s := ms.(heldState)
+	if ev.Kind != "call" {
+		return s
+	}
+	switch ev.Class {
+	case "rlock":
+		if s.r < 2 {
+			s.r++
+		}
+	case "lock":
+		if s.w < 2 {
+			s.w++
+		}
+	case "runlock":
+		m.col.Check("C19.R5", m.label+":unlock", s.r > 0, ev.Pos, "the getter releases a read lock it does not hold (fatal error at run time)", pathIf(s.r == 0, c))
+		if s.r > 0 {
+			s.r--
+		}
+	case "unlock":
+		m.col.Check("C19.R5", m.label+":unlock", s.w > 0, ev.Pos, "the getter releases a lock it does not hold (fatal error at run time)", pathIf(s.w == 0, c))
+		if s.w > 0 {
+			s.w--
+		}
+	}
+	return s
 }
